@@ -84,6 +84,45 @@ INFO = {
  "C19_d": ("getLabels uses qr.bm != 0 as short-node test and String()/NodeInfo no longer reset the session", "a normal 17-bit node rendered after a short node"),
  "C20_c": ("newVLenArray keeps a lone non-empty element without copying it", "[][]byte values with the identity encoder encode.Bytes and exactly one stored leaf"),
  "C20_d": ("NewSlimTrie normalises &opts[0] in place", "options passed by spreading a caller-owned slice (opts...)"),
+ # ---- round 3 (fresh sub-agents, told the ideas of rounds 1 and 2)
+ "C01_e": ("TypeEncoder.Encode re-uses one buffer held by the encoder", "a *encode.TypeEncoder as value encoder and at least two distinct values (all kept slices alias the last encoding)"),
+ "C01_f": ("getIthLeafBytes/getIthLeaf fast path for FixedSize>0 skips the presence bitmap", "an encoder with some empty values and one common width for the others"),
+ "C02_e": ("labels of big nodes collected by a helper whose duplicate filter advances on dropped keys", "dedup on, a 257-bit node, a run of equal values crossing a byte boundary"),
+ "C02_f": ("child boundaries found by binary search that skips exactly one all-dropped label group", "dedup on, >=64 unassigned keys, a run covering two whole consecutive branches"),
+ "C03_e": ("getLabelIdxOfKey returns int32(b+1) computed in 8 bits: 0xff wraps to the end-of-key label", "a 257-bit node and byte 0xff at its position"),
+ "C03_f": ("stored inner prefix compared by a new helper that ranges over the key string by runes", "Complete/InnerPrefix trie with a shared run containing a byte >= 0x80"),
+ "C04_e": ("iterator node stack taken from a sync.Pool and Put back on every call after exhaustion", "an exhausted iterator polled twice, then two iterators advanced in turn"),
+ "C04_f": ("ScanFromTo end test uses a cursor carried across callbacks instead of bytes.Compare", "end is not a stored key (or includeEnd with a shorter next key)"),
+ "C05_e": ("Marshal writes into a pooled bytes.Buffer and returns its bytes", "two Marshal results alive at once, the later stream fitting the recycled buffer"),
+ "C05_f": ("load-time padding of the leaf-prefix presence bitmap computes leafCnt>>6+1 words", "LeafPrefix/Complete trie whose leaf count is a non-zero multiple of 64; bytes compared after a load"),
+ "C06_e": ("getStepBefore000510 subtracts the label word from the low byte only (borrow lost)", "a pre-0.5.10 stream with an inner step that is a multiple of 256 nibbles"),
+ "C06_f": ("legacy label bits decoded into var idx [16]int32 although a node that is also a leaf has 17 labels", "a pre-0.5.10 node that is a leaf and has all 16 children"),
+ "C07_e": ("vers.IsCompatible gate dropped; the layout dispatch alone decides", "a header version below 0.5.8, a pre-release or an unparsable string"),
+ "C07_f": ("current-version fast path decodes the body into st.inner before the version is judged", "an incompatible version on a decodable body, then a lookup on the same instance"),
+ "C08_e": ("order check compares only the suffixes after the prefix shared by the first and last key", ">=3 keys, an inner key out of order inside that prefix"),
+ "C08_f": ("16-bit step codec typed int16: the decoder sign-extends", "InnerPrefix off, a branch-free run of 32768..65535 half-bytes"),
+ "C10_e": ("searchID compares the leaf tail only on tries that store both prefix kinds", "LeafPrefix-only trie: Get says not found, Search/RangeGet report a value"),
+ "C10_f": ("Unmarshal version dispatch as a switch that groups 0.5.11 with the current version", "a 0.5.11 stream: loads without fix-ups, lookups panic"),
+ "C11_e": ("scan key buffer set to the stored leaf prefix slice instead of copying it", "Complete trie, a leaf directly under a 4-bit root with a key longer than 64 bytes, a scan past it"),
+ "C11_f": ("Stat() rebuilds the level table of the shared instance on every call", "two goroutines in Stat on one instance"),
+ "C12_e": ("NewSlimIndex passes only the first and last key of a run sharing one offset to the trie", "a block of >=3 keys whose interior key is routed to the next block"),
+ "C12_f": ("short-bitmap extraction moved into a helper whose straddling test is to>>6 != from>>6", "the last inner node is short and Inners ends on a 64-bit boundary"),
+ "C13_e": ("getNode takes the bit length of a big node's stored prefix from its byte count (marker byte included)", "InnerPrefix/Complete, a 257-bit node with a non-empty prefix"),
+ "C13_f": ("option flags cached in creator bools with a copy/paste slip: leafPrefix = *opt.InnerPrefix", "Opt{LeafPrefix:true} alone and a retained key with a leaf tail"),
+ "C14_e": ("typed getters skip a big root through a first-byte table that ignores the root's own step", "all keys share a leading run and >10 distinct bytes follow"),
+ "C14_f": ("typed getters use a one-pass leaf-ordinal walk that does not re-align after a stored inner prefix", "InnerPrefix-only trie, a prefixed node entered at a half-byte offset"),
+ "C15_e": ("Int.Decode assembles 32-bit words read as int32 (low word sign-extended)", "64-bit platform, a value with bit 31 set and other upper bits"),
+ "C15_f": ("TypeEncoder.Decode fast path returns builtin integers for defined integer types", "a TypeEncoder for `type ID uint32`"),
+ "C16_e": ("InitIndex skips the ascending scan when last-first == len-1", "an invalid list whose endpoints are len-1 apart, e.g. [1 3 2 4]"),
+ "C16_f": ("InitElts encodes big arrays in 8 concurrent chunks of n/8 (tail n%8 never encoded)", "n >= 65536 and n % 8 != 0"),
+ "C17_e": ("nodes are made 257-bit until the end of the level once one wide node was seen", "a level whose first node is wide and whose other nodes have 2 children"),
+ "C17_f": ("the builder's bitmap counters come from a sync.Pool and are never cleared", "a small trie built after a large one in the same process"),
+ "C18_e": ("getIthInnerFrom returns ithInner<<8 for big nodes (256 instead of 257 bits per node)", ">=2 big inner nodes and labels in the last bits before a level's first inner node"),
+ "C18_f": ("legacy loader initialises a separate SlimTrie and copies back inner and vars but not levels", "any pre-0.5.10 stream, then Stat"),
+ "C19_e": ("labels rendered by a helper that zero-pads to 4 bits only: 8-bit labels are not fixed-width and sort wrongly", "a 257-bit node whose labels differ in significant bit length"),
+ "C19_f": ("String() output cached in the trie; only Reset clears it", "a rendered trie re-used as the target of a direct Unmarshal"),
+ "C20_e": ("same idea as C05_e (pooled Marshal buffer, with a size cap)", "two Marshal results alive at once, streams <= 64 KiB"),
+ "C20_f": ("Marshal memoises the stream and the first caller gets the cached array itself", "a stream >= 4 KiB, the first result overwritten, Marshal again"),
 }
 
 def props():
